@@ -48,7 +48,10 @@ def main(argv, seed):
     for meta in sorted(glob.glob(os.path.join(HOME, "seeded", "*", "meta.json"))):
         m = json.load(open(meta))
         for c in m.get("checks", {m["property"]: None}):
-            jobs.append((os.path.join(os.path.dirname(meta), "patch.diff"), c, "seeded/" + m["name"], "caught"))
+            # (a change written against one property whose subject is another property's: the meta says which check is
+            # not expected to see it, and why, under "out_of_scope")
+            want = "missed" if c in m.get("out_of_scope", {}) else "caught"
+            jobs.append((os.path.join(os.path.dirname(meta), "patch.diff"), c, "seeded/" + m["name"], want))
     for p in sorted(glob.glob(os.path.join(HOME, "mutants", "*.patch"))):
         base = os.path.basename(p)
         jobs.append((p, base[:3], "mutants/" + base, "missed" if "harmless" in base else "caught"))
